@@ -221,10 +221,21 @@ class LogAsyncIterable(AsyncIterable):
         return LogAsyncIter(self.l)
 
 
+class LogGetItemSeq:
+    """iterable ONLY through the sequence protocol (__getitem__ with 0, 1, … until IndexError); every access is a poll"""
+
+    def __init__(self, l):
+        self.l = list(l)
+
+    def __getitem__(self, i):
+        LOG.append(7)
+        return self.l[i]
+
+
 def mk_log_src(src, variant: int):
     kind, l = src
     if kind == 0:
-        return LogSyncIter(l) if variant % 2 == 0 else LogIterable(l)
+        return (LogSyncIter(l), LogIterable(l), LogGetItemSeq(l))[variant % 3]
     return LogAsyncIter(l) if variant % 2 == 0 else LogAsyncIterable(l)
 
 
@@ -255,9 +266,27 @@ def enc_opt(o):
 # ----------------------------------------------------------------------------------------------
 # running one case on AnyIO (trace) and on the stdlib (outcome)
 # ----------------------------------------------------------------------------------------------
+# objects whose equality is not reflexive: code = 100 * identity + 99 (pure/Itertools.v same_obj)
+import decimal as _decimal
+
+NAN_OBJS = [float("nan"), float("nan"), _decimal.Decimal("NaN")]
+_NAN_CODE = {id(o): 100 * i + 99 for i, o in enumerate(NAN_OBJS)}
+
+
+def obj_of(code: int):
+    return NAN_OBJS[code // 100] if code % 100 == 99 else code
+
+
+def code_of(x):
+    return _NAN_CODE.get(id(x), x)
+
+
+NAN_KEYS = [None, lambda x: NAN_OBJS[0], lambda x: 1 if x != x else 0]
+
+
 def enc_val(v):
     if isinstance(v, tuple) and len(v) == 2 and isinstance(v[1], list):   # groupby
-        return [v[0], *v[1]]
+        return [code_of(v[0]), *[code_of(x) for x in v[1]]]
     if isinstance(v, (tuple, list)):
         return [NONE_CODE if x is None else x for x in v]
     return [v]
@@ -396,7 +425,7 @@ FUNS = {
     "zip_longest": 19, "tee": 20, "reduce": 21, "tee_args": 22,
     # aliasing family: the same iterator object at several argument positions
     "zip_longest_alias": 23, "chain_alias": 24, "compress_self": 25, "product_alias": 26, "starmap_alias": 27,
-    "reduce_in_cancelled_scope": 28,
+    "reduce_in_cancelled_scope": 28, "groupby_objects": 29, "islice_then_rest": 30, "reduce_non_iterable": 31,
 }
 ALIAS = (23, 24, 26, 27)
 FNAME = {v: k for k, v in FUNS.items()}
@@ -430,6 +459,10 @@ class Case:
             return [(a[1], ())] + list(a[2])
         if fc == 19:
             return list(a[1])
+        if fc == 29:
+            return [a[1]]
+        if fc == 30:
+            return [(a[0], ()), a[2]]
         if fc == 23:
             return [a[1][i] for i in a[2]]
         if fc == 24:
@@ -489,6 +522,12 @@ def encode(fc, a):
         return [fc, len(a[1]), *enc_opt(a[0]), *[x for s in a[1] for x in enc_src(s)]]
     if fc == 22:           # (n,)
         return [fc, a[0]]
+    if fc == 29:           # (key code, src of object codes)
+        return [fc, a[0], *enc_src(a[1])]
+    if fc == 30:           # (outer kind, islice args, src)  chain(islice(it, *args), it) over ONE iterator object
+        return [fc, a[0], len(a[1]), *[x for o in a[1] for x in enc_opt(o)], *enc_src(a[2])]
+    if fc == 31:           # (fn, initial)  reduce over something that is not iterable
+        return [fc, a[0], *enc_opt(a[1])]
     enc_store = lambda st: [len(st), *[x for e in st for x in enc_src(e)]]  # noqa: E731
     if fc == 23:           # (fill or None, store, positions)
         return [fc, *enc_opt(a[0]), *enc_store(a[1]), len(a[2]), *a[2]]
@@ -550,7 +589,30 @@ async def run_anyio(c: Case):
             return await consume_async(lambda: ait.groupby(S(a[1])))
         return await consume_async(lambda: ait.groupby(S(a[1]), amk(KEYF[a[0]])))
     if fc == 12:
-        return await consume_async(lambda: ait.islice(S(a[1]), *a[0]))
+        return await consume_async(lambda: ait.islice(mk_log_src(a[1], v), *a[0]))
+    if fc == 29:
+        kind, codes = a[1]
+        objs = [obj_of(x) for x in codes]
+        src_obj = mk_src((kind, objs), v)
+        if a[0] == 0:
+            return await consume_async(lambda: ait.groupby(src_obj))
+        return await consume_async(lambda: ait.groupby(src_obj, amk(NAN_KEYS[a[0]])))
+    if fc == 30:
+        kind, l = a[2]
+        shared = LogSyncIter(l) if kind == 0 else LogAsyncIter(l)
+        if a[0] == 0:
+            return await consume_async(lambda: ait.chain(ait.islice(shared, *a[1]), shared))
+        return await consume_async(lambda: ait.chain.from_iterable(_agen([ait.islice(shared, *a[1]), shared])))
+    if fc == 31:
+        try:
+            if a[1] is None:
+                r = await afn.reduce(reducer(FN2[a[0]], v), 5)
+            else:
+                r = await afn.reduce(reducer(FN2[a[0]], v), 5, a[1])
+            LOG.append(("y", r))
+            return None
+        except Exception as e:  # noqa: BLE001
+            return err_code(e)
     if fc == 13:
         return await consume_async(lambda: ait.pairwise(S(a[0])))
     if fc == 14:
@@ -673,6 +735,19 @@ def run_std(c: Case):
         return consume_sync(lambda: std_groupby(L(a[1]), KEYF[a[0]]))
     if fc == 12:
         return consume_sync(lambda: it.islice(L(a[1]), *a[0]))
+    if fc == 29:
+        objs = [obj_of(x) for x in a[1][1]]
+        return consume_sync(lambda: std_groupby(objs, NAN_KEYS[a[0]]))
+    if fc == 30:
+        shared = iter(list(a[2][1]))
+        return consume_sync(lambda: it.chain(it.islice(shared, *a[1]), shared))
+    if fc == 31:
+        try:
+            if a[1] is None:
+                return [std_functools.reduce(FN2[a[0]], 5)], None
+            return [std_functools.reduce(FN2[a[0]], 5, a[1])], None
+        except Exception as e:  # noqa: BLE001
+            return [], err_code(e)
     if fc == 13:
         return consume_sync(lambda: it.pairwise(L(a[0])))
     if fc == 14:
@@ -813,15 +888,15 @@ BOUNDS = {
                   islice_params=(None, -2, -1, 0, 1, 2, 3, 5), Lislice=2, Lislice_distinct=6, chain_n=2, chain_L=2,
                   zip_n=2, zip_L=2, prod_n=2, prod_L=2, prod_rep=(-1, 0, 1, 2, 3), star_n=2, star_L=2,
                   cycle_L=3, cycle_k=7, count_k=4, Lacc=4,
-                  alias_L1=4, alias_L2=2, alias_L3=1, alias_self_L=5),
+                  alias_L1=4, alias_L2=2, alias_L3=1, alias_self_L=5, obj_L=4, rest_L=4, rest_params=(None, 0, 1, 2, 3, 5)),
     "c08": dict(L=1, Lpred=1, params=(-1, 0, 1, 2), Lcomb=1, Lcompress=1, islice_params=(None, 0, 1, 2), Lislice=1,
                 Lislice_distinct=1, chain_n=2, chain_L=1, zip_n=2, zip_L=1, prod_n=2, prod_L=1, prod_rep=(0, 1), star_n=2,
-                star_L=1, cycle_L=1, cycle_k=2, count_k=1, Lacc=1, alias_L1=1, alias_L2=1, alias_L3=0, alias_self_L=1),
+                star_L=1, cycle_L=1, cycle_k=2, count_k=1, Lacc=1, alias_L1=1, alias_L2=1, alias_L3=0, alias_self_L=1, obj_L=2, rest_L=2, rest_params=(None, 0, 1, 3)),
     "thorough": dict(L=6, Lpred=7, params=(-2, -1, 0, 1, 2, 3, 4, 5, 6, 7), Lcomb=5, Lcompress=4,
                      islice_params=(None, -2, -1, 0, 1, 2, 3, 4, 5, 6, 7), Lislice=4, Lislice_distinct=7,
                      chain_n=3, chain_L=2, zip_n=3, zip_L=2, prod_n=2, prod_L=2, prod_rep=(-2, -1, 0, 1, 2, 3),
                      star_n=3, star_L=2, cycle_L=4, cycle_k=10, count_k=5, Lacc=6,
-                     alias_L1=6, alias_L2=3, alias_L3=2, alias_self_L=7),
+                     alias_L1=6, alias_L2=3, alias_L3=2, alias_self_L=7, obj_L=5, rest_L=6, rest_params=(None, -1, 0, 1, 2, 3, 4, 5, 7)),
 }
 
 
@@ -942,6 +1017,21 @@ def alias_cases(tier: str) -> list[Case]:
                         add(27, (f, ko, store, pos))
     for s_ in srcs_upto(b["alias_self_L"]):
         add(25, (s_,))
+    # groupby over objects whose equality is not reflexive: ints, one NaN object repeated, other NaN objects, Decimal NaN
+    for l in lists(b["obj_L"], (0, 1, 99, 199, 299)):
+        for kind in (0, 1):
+            for kc in range(len(NAN_KEYS)):
+                add(29, (kc, (kind, l)))
+    # chain(islice(it, *args), it): what islice leaves in a shared iterator (start >= stop, stop = 0, start > len …)
+    rp = b["rest_params"]
+    for args in [t for n in (1, 2, 3) for t in std_itertools.product(rp, repeat=n)]:
+        for n in range(b["rest_L"] + 1):
+            for kind in (0, 1):
+                for ko in (0, 1):
+                    add(30, (ko, args, (kind, tuple(range(n)))))
+    for f in (0, 5):
+        for init in (None, 2):
+            add(31, (f, init))
     return out
 
 
@@ -951,8 +1041,13 @@ def random_alias_cases(rng: random.Random, n: int) -> list[Case]:
         m = rng.randint(1, 3)
         store = tuple((rng.randint(0, 1), tuple(rng.randint(-5, 9) for _ in range(rng.randint(0, 12)))) for _ in range(m))
         pos = tuple(rng.randrange(m) for _ in range(rng.randint(1, 5)))
-        fc = rng.choice([23, 23, 24, 25, 26, 27])
-        if fc == 23:
+        fc = rng.choice([23, 23, 24, 25, 26, 27, 29, 30, 30])
+        if fc == 29:
+            a = (rng.randrange(len(NAN_KEYS)), (rng.randint(0, 1), tuple(rng.choice((0, 1, 2, 99, 99, 199, 299)) for _ in range(rng.randint(0, 14)))))
+        elif fc == 30:
+            a = (rng.randint(0, 1), tuple(rng.choice((None, 0, 1, 2, 3, 5, 8, 12)) for _ in range(rng.choice([1, 2, 2, 3]))),
+                 (rng.randint(0, 1), tuple(range(rng.randint(0, 12)))))
+        elif fc == 23:
             a = (rng.choice([None, -1, 7]), store, pos)
         elif fc == 24:
             a = (rng.randint(0, 1), store, pos)
@@ -1678,6 +1773,12 @@ def interesting(c: Case) -> set:
                     f.add("zip_longest_grouper_async")
     if c.fc == 25:
         f.add("shared_async_iterator" if c.a[0][0] == 1 else "shared_sync_iterator")
+    if c.fc == 29 and any(x % 100 == 99 and c.a[1][1][i + 1:i + 2] == (x,) for i, x in enumerate(c.a[1][1])):
+        f.add("groupby_same_nan_object_run")
+    if c.fc == 30 and len(c.a[1]) >= 2 and None not in c.a[1][:2] and c.a[1][0] >= c.a[1][1] >= 0 and c.a[1][0] > 0:
+        f.add("islice_start_ge_stop_shared")
+    if c.fc == 21 and c.a[2][0] == 0 and c.var % 3 == 2:
+        f.add("reduce_getitem_only_sequence")
     return f
 
 
@@ -1907,7 +2008,8 @@ def check(tier: str) -> int:
     })
     for need in ("error_path", "empty_traversal", "async_source", "sync_source", "islice_step_gt1",
                  "batched_short_tail", "groupby_key_change", "zip_uneven", "cycle_wraps", "shared_async_iterator",
-                 "shared_sync_iterator", "zip_longest_grouper_async"):
+                 "shared_sync_iterator", "zip_longest_grouper_async", "groupby_same_nan_object_run",
+                 "islice_start_ge_stop_shared", "reduce_getitem_only_sequence"):
         if not flags.get(need):
             rep.notes.append(f"generator self-check: predicate {need} never reached")
     for need in ("lock_contended", "handoff", "copy_fresh", "copy_advanced", "copy_exhausted", "copy_of_copy", "copy_midcall"):
